@@ -18,7 +18,7 @@ RULE = ('every registered function x every scalar parameter declared numeric '
         '(annotation XlNumber, or the Number class) x spellings {int, float, '
         'numpy.int64/float64, Number, decimal text, Text, scientific text, '
         'TRUE/Boolean for 1, FALSE/blank/Blank for 0, non-numeric text -> '
-        '#VALUE!}; every text parameter x {int, float, whole float, boolean, '
+        '#VALUE!}, each passed positionally and by keyword; every text parameter x {int, float, whole float, boolean, '
         'Number, Boolean}; arithmetic table over {number, numeric text, '
         'TRUE/FALSE, blank} x 5 arithmetic operators and &, as library calls '
         '(native and typed) and as formulas (literals and cell references); '
@@ -36,7 +36,7 @@ ASSUMPTIONS = [
 FLOORS = {'numeric_spelling_cases': 600, 'text_spelling_cases': 100,
           'arithmetic_cases': 400, 'name_lookup_cases': 100,
           'user_function_cases': 10, 'numpy_spellings': 100,
-          'formula_cases': 120}
+          'formula_cases': 120, 'keyword_spelling_cases': 300}
 ANCHOR_FUNCS = {
     'xlcalculator/xlfunctions/xl.py': ['validate_args.<locals>.validate',
                                        '_validate', 'register',
@@ -176,6 +176,33 @@ def run(ctx):
                                 'observed': got, 'canonical': canonical},
                                group=f'numeric:{sname}:{got[0]}:'
                                      f'{got[1][:20] if got[0] == "raised" else got[1][0]}:{fname}')
+                # the same spellings with the argument passed BY NAME (the
+                # Python calling convention the library's own tests use, e.g.
+                # PMT(..., type=1)): how a value is handed over is no part of
+                # how it is spelt
+                tail = params[pos:len(ex)]
+                if all(q.kind == q.POSITIONAL_OR_KEYWORD for q in tail):
+                    for sname, sval in spellings(v) + [('text-nonnumeric',
+                                                        'abc')]:
+                        args = list(base)
+                        args[pos] = sval
+                        kw = {q.name: args[pos + i]
+                              for i, q in enumerate(tail)}
+                        got = monitors.call_outcome(
+                            lambda: f(*args[:pos], **kw))
+                        ctx.event('keyword_spelling_cases')
+                        ctx.case((fname, pos, 'kw:' + sname))
+                        want = canonical if sname != 'text-nonnumeric' else \
+                            ('value', ('err', '#VALUE!'))
+                        if not same(got, want):
+                            report(f'{fname}: parameter {p.name} passed by '
+                                   f'name, spelt as {sname} ({sval!r}) -> '
+                                   f'{got}, expected {want}',
+                                   {'function': fname, 'position': pos,
+                                    'keyword': p.name, 'spelling': sname,
+                                    'value': repr(sval), 'observed': got,
+                                    'canonical': want},
+                                   group=f'keyword:{sname}:{got[0]}:{fname}')
                 # non-numeric text -> #VALUE!
                 if not variadic:
                     args = list(base)
